@@ -65,12 +65,16 @@ class C19(object):
             '>= 2 series and >= 1 data row' % BATCH)
     assumptions = ['priority order (iteration, iteration_error, iteration_abs_change, k, t) is the documented one',
                    "the table is compared structurally (lines split on newline, cells on tab), not byte for byte"]
-    required_counters = ('synthetic.judged', 'solve.judged', 'cells.compared', 'synthetic.rerendered_after_dict_op')
+    required_counters = ('synthetic.judged', 'solve.judged', 'cells.compared', 'synthetic.rerendered_after_dict_op', 'model.judged')
 
     def n_cases(self, tier):
         return 40 if tier == 'quick' else 4000
 
     def make_case(self, rng, idx, tier):
+        if idx % 16 == 15:
+            from vf.gen import modelspec as M
+            return {'kind': 'model', 'mspec': M.gen_spec(rng, n_zones=rng.choice([1, 2]), maxtime=rng.randint(1, 5)),
+                    'fmt': rng.choice(['%.5g', '%r'])}
         if idx % 4 == 3:
             spec = G.gen_affine(rng, rho=rng.choice([0.2, 0.5]), tol=1e-8)
             return {'kind': 'solve', 'spec': spec, 'text': G.render(spec), 'fmt': rng.choice(['%.5g', '%.12e', '%r']),
@@ -180,6 +184,25 @@ class C19(object):
             return {'verdict': 'violated' if rec.violations else 'held', 'nontrivial': bool(keys),
                     'evals': case['n'], 'keys': keys, 'shape': 'synthetic', 'counters': rec.counters,
                     'violations': rec.violations, 'obs': obs}
+        if case['kind'] == 'model':
+            from vf.gen import modelspec as M
+            b = M.build(case['mspec'])
+            if b.error is not None:
+                return {'verdict': 'notjudged', 'shape': 'model|' + type(b.error).__name__}
+            solver = b.model.EquationSolver
+            text = solver.GenerateCSVtext(case['fmt'])
+            rec.count('solve.judged')
+            rec.count('model.judged')
+            gh, grows = monitors.parse_table(text)
+            horizon = case['mspec']['maxtime']
+            if len(grows) != horizon + 1:
+                rec.violate('rows_not_horizon_plus_one', {'rows': len(grows), 'horizon': horizon})
+            if sorted(gh) != sorted(solver.TimeSeries.keys()) or len(set(gh)) != len(gh):
+                rec.violate('series_not_named_once', {'header': gh[:20]})
+            self.judge_table(dict(solver.TimeSeries), case['fmt'], text, rec, {'fmt': case['fmt'], 'model': True})
+            return {'verdict': 'violated' if rec.violations else 'held', 'nontrivial': True, 'shape': 'model',
+                    'counters': rec.counters, 'violations': rec.violations,
+                    'obs': {'header': gh[:8], 'rows': len(grows), 'horizon': horizon, 'n_series': len(gh)}}
         # real solve
         from sfc_models.equation_solver import EquationSolver
         solver = EquationSolver(run_equation_reduction=case['reduction'])
